@@ -617,8 +617,9 @@ int disasm_arm64(
           }
             else
           {
-            size = (opcode >> 30) & 1;
-            reg_name = (size & 1) == 0 ? 'w' : 'x';
+            // Only size 3 (64 bit) has an x register, strh/ldrh are size 1.
+            size = (opcode >> 30) & 3;
+            reg_name = (size == 3) ? 'x' : 'w';
           }
 
           imm = (opcode >> 12) & 0x1ff;
